@@ -1986,6 +1986,67 @@ const MAX_RRSIGS_PER_RRSET: usize = 8;
 /// recursor response cache
 const DEFAULT_VALIDATION_CACHE_SIZE: usize = 1_048_576;
 
+/// Hooks for out-of-tree verification tooling (compiled only with `--cfg hickory_dns_verif`).
+///
+/// Thin public wrappers around the private decision procedures of the validator so that they can
+/// be driven directly; they add no behaviour.
+#[cfg(hickory_dns_verif)]
+pub mod verif_hooks {
+    use super::*;
+
+    /// Calls the private [`super::verify_nsec`].
+    pub fn verify_nsec(
+        query: &Query,
+        soa_name: Option<&Name>,
+        response_code: ResponseCode,
+        answers: &[Record],
+        nsecs: &[(&Name, &NSEC)],
+    ) -> Proof {
+        super::verify_nsec(query, soa_name, response_code, answers, nsecs)
+    }
+
+    /// Calls the private `nsec3::verify_nsec3`.
+    pub fn verify_nsec3(
+        query: &Query,
+        soa: Option<&Name>,
+        response_code: ResponseCode,
+        answers: &[Record],
+        nsec3s: &[(&Name, &crate::proto::dnssec::rdata::NSEC3)],
+        nsec3_soft_iteration_limit: u16,
+        nsec3_hard_iteration_limit: u16,
+    ) -> Proof {
+        super::verify_nsec3(
+            query,
+            soa,
+            response_code,
+            answers,
+            nsec3s,
+            nsec3_soft_iteration_limit,
+            nsec3_hard_iteration_limit,
+        )
+    }
+
+    /// Calls the private [`super::verify_rrset_with_dnskey`] (RRSIG validity checks, signature
+    /// verification and authenticated TTL) for the RRset `records` of `name`/`record_type`.
+    pub fn verify_rrset_with_dnskey(
+        dnskey: RecordRef<'_, DNSKEY>,
+        dnskey_proof: Proof,
+        rrsig: &RecordRef<'_, RRSIG>,
+        name: &Name,
+        record_type: RecordType,
+        records: &mut [Record],
+        current_time: u32,
+    ) -> Result<(Proof, Option<u32>), Proof> {
+        let key = RrKey::new(LowerName::new(name), record_type);
+        let rrset = Rrset {
+            records: records.iter_mut().collect(),
+            signatures: Vec::new(),
+        };
+        super::verify_rrset_with_dnskey(dnskey, dnskey_proof, rrsig, &key, &rrset, current_time)
+            .map_err(|e| e.proof)
+    }
+}
+
 #[cfg(test)]
 mod test {
     use super::{no_closer_matches, verify_nsec};
